@@ -57,7 +57,7 @@ def routed_vs_unrouted(P, Q, stamps):
                   pre_aggregations=[PreAggregation(name="r", measures=["total", "n"], dimensions=[], time_dimension="created", granularity=P)])
     layer.add_model(model)
     con = layer.conn
-    con.execute("SET TimeZone='UTC'")
+    con.execute("SET TimeZone='UTC'"); con.execute("SET threads=1"); con.execute("SET disabled_optimizers='statistics_propagation'")
     con.execute("CREATE TABLE ev (id INTEGER, created TIMESTAMP, v INTEGER)")
     for i, t in enumerate(stamps):
         con.execute("INSERT INTO ev VALUES (?, ?, ?)", [i, ts_of(t), 1 + i * 10])
